@@ -58,6 +58,7 @@ type Params struct {
 	File          bool // file-backed disk manager for the live run (needed for clean shutdown / reopen)
 	CleanShutdown bool // end the live run with SamehadaDB.Shutdown() (flush + graceful-shutdown record) instead of closing the files
 	NoUpdate      bool // never generate UPDATE (tables with a hash index: UpdateEntry is unimplemented there)
+	PreEpochs     int  // see Run
 	// BigTxnRows > 0: instead of the random walk, preload that many wide rows (auto-commit, before SetupEnd), then run
 	// transactions that each change EVERY row in one statement, so that a single transaction appends more log than the
 	// log buffer holds (LogBufferSize = 129 pages) with no commit, eviction or checkpoint flushing in between
@@ -85,8 +86,9 @@ type History struct {
 	P          Params
 	Events     []rec.Event
 	Txns       []*Txn
-	SetupEnd   int    // events before this index belong to database / table creation
-	LiveDiff   string // non-empty: the live final state differed from the model (the history is not used for crash checking)
+	Base       *rec.Image // files at the moment the recorder was installed (nil: fresh database)
+	SetupEnd   int        // events before this index belong to database / table creation
+	LiveDiff   string     // non-empty: the live final state differed from the model (the history is not used for crash checking)
 	Stats      map[string]int64
 	StmtLog    []string
 	EndedEarly string
@@ -126,30 +128,90 @@ func payload(r *rand.Rand, sizes []int, max int, tag string) string {
 }
 
 // Run executes a generated history on a fresh database at path (in-memory disk manager, recorded).
+// With p.PreEpochs > 0 the recorded history does not start on a fresh database: the tables are created and filled in an
+// earlier, unrecorded session that ends like a crash; PreEpochs-1 idle sessions (start-up, one read, crash-like close)
+// follow; only then the recorder is installed and the database is opened again (History.Base = the files at that moment).
 func Run(r *rand.Rand, path string, p Params) (h *History, fatal string) {
+	if p.PreEpochs > 0 {
+		p.File = true
+	}
 	h = &History{P: p, Stats: map[string]int64{}}
+	rn := &runner{r: r, p: p, h: h, commit: map[string]map[int32]rm.Row{}, owner: map[string]map[int32]int{}, nextID: 1}
+	for _, t := range p.Tables {
+		rn.commit[t.Name] = map[int32]rm.Row{}
+		rn.owner[t.Name] = map[int32]int{}
+	}
+	create := func(db *sqlx.DB) string {
+		for _, t := range p.Tables {
+			if t.Via == "sql" {
+				if err := db.CreateTableSQL(t.Name, Cols); err != nil {
+					return "create table: " + err.Error()
+				}
+			} else {
+				db.CreateTableAPI(t.Name, Cols, t.Idx)
+			}
+		}
+		return ""
+	}
+	if p.PreEpochs > 0 {
+		msg := func() (msg string) {
+			defer func() {
+				if x := recover(); x != nil {
+					msg = "earlier session panicked: " + fmt.Sprint(x)
+				}
+			}()
+			sqlx.RemoveFiles(path)
+			db0 := sqlx.Open(path, p.MemKB, sqlx.Options{File: true})
+			if m := create(db0); m != "" {
+				return m
+			}
+			rn.db, rn.rc = db0, &rec.Recorder{}
+			for i := 8 + r.Intn(25); i > 0; i-- {
+				if !rn.auto() {
+					return "earlier session: " + h.EndedEarly
+				}
+			}
+			db0.S.ShutdownForTescase()
+			for e := 1; e < p.PreEpochs; e++ {
+				dbi := sqlx.Open(path, p.MemKB, sqlx.Options{File: true})
+				dbi.ScanAllAuto(p.Tables[0].Name)
+				dbi.S.ShutdownForTescase()
+				h.Stats["idle_sessions_before_the_recorded_history"]++
+			}
+			return ""
+		}()
+		if msg != "" {
+			return h, msg
+		}
+		// everything the earlier session committed counts as committed before the first recorded event
+		for _, t := range h.Txns {
+			t.Begin = 0
+			if t.CommitRet >= 0 {
+				t.CommitCall, t.CommitRet = 0, 0
+			}
+			if t.AbortRet >= 0 {
+				t.AbortRet = 0
+			}
+		}
+		h.Stats["histories_on_a_database_with_earlier_sessions"]++
+		h.Base = rec.ReadFiles(path)
+	}
 	get := rec.Install()
 	defer rec.Uninstall()
 	db := sqlx.Open(path, p.MemKB, sqlx.Options{File: p.File})
 	rc := get()
 	rec.Uninstall()
-	rn := &runner{r: r, db: db, rc: rc, p: p, h: h, commit: map[string]map[int32]rm.Row{}, owner: map[string]map[int32]int{}, nextID: 1}
+	rn.db, rn.rc = db, rc
 	defer func() {
 		if x := recover(); x != nil {
 			fatal = fmt.Sprint(x)
 			h.Events = rc.Events
 		}
 	}()
-	for _, t := range p.Tables {
-		if t.Via == "sql" {
-			if err := db.CreateTableSQL(t.Name, Cols); err != nil {
-				return h, "create table: " + err.Error()
-			}
-		} else {
-			db.CreateTableAPI(t.Name, Cols, t.Idx)
+	if p.PreEpochs == 0 {
+		if m := create(db); m != "" {
+			return h, m
 		}
-		rn.commit[t.Name] = map[int32]rm.Row{}
-		rn.owner[t.Name] = map[int32]int{}
 	}
 	h.SetupEnd = rc.Len()
 	if p.BigTxnRows > 0 {
